@@ -62,9 +62,47 @@ FIXED.append(
                       ['op', '=', ['ref', 'A1'], ['num', '1']],
                       ['str', 'one'], ['ref', 'B1']]]},
      'sheets': ['Sheet1'], 'setvals': [True, 1.0, 0, False, 1]})
+FIXED.append(
+    # defined names (workbook path): setting / evaluating / reading through
+    # a name is equivalent to using the address
+    {'inputs': {'Sheet1!A1': 2, 'Sheet1!A2': 5},
+     'formulas': {'Sheet1!B1': ['op', '*', ['ref', 'A1'], ['num', '3']],
+                  'Sheet1!C1': ['op', '+', ['call', 'SUM', [
+                      ['range', 'A1:A2']]], ['ref', 'B1']]},
+     'sheets': ['Sheet1'],
+     'names': {'Rate': 'Sheet1!A1', 'Total': 'Sheet1!C1'}})
 for _m in FIXED:
     _m['order'] = list(_m['formulas'])
 PLACEHOLDER = 987654321
+
+
+def compile_named(model):
+    """workbook path: the only one that creates defined names"""
+    import os
+    import tempfile
+    from vf.gen import xlsxmin
+    xl = lib.lib()
+    per = {s_: {} for s_ in model['sheets']}
+    for a, v in model['inputs'].items():
+        s_, a1 = a.split('!')
+        per[s_][a1] = {'kind': 'n', 'v': v}
+    for a, t in model['formulas'].items():
+        s_, a1 = a.split('!')
+        per[s_][a1] = {'kind': 'f', 'f': R.render(t)}
+    wbn = []
+    for n, a in model['names'].items():
+        s_, a1 = a.split('!')
+        c, r = R.split_a1(a1)
+        wbn.append({'name': n, 'ref': '%s!$%s$%d' % (s_, c, r)})
+    fd, fn = tempfile.mkstemp(prefix='vf_c04_', suffix='.xlsx')
+    os.close(fd)
+    try:
+        xlsxmin.write(fn, {'sheets': [{'name': s_, 'cells': per[s_]}
+                                      for s_ in model['sheets']],
+                           'names': wbn})
+        return xl.ModelCompiler().read_and_parse_archive(fn)
+    finally:
+        os.remove(fn)
 
 
 def vtag(v):
@@ -100,6 +138,11 @@ def _alphabet(m):
             ops.append(['set', i, v])
     for c in sorted(m['formulas']):
         ops.append(['eval', c])
+    for n, a in sorted(m.get('names', {}).items()):
+        if a in m['inputs']:
+            ops.append(['set', n, 13])
+            ops.append(['get', n])
+        ops.append(['eval', n])
     last = sorted(m['formulas'])[-1]
     ops.append(['get', last])
     ops.append(['eval', sorted(m['inputs'])[0]])
@@ -112,7 +155,8 @@ def enumerate_cases(tier, shard=0, nshards=1):
     i = 0
     for mi, m in enumerate(FIXED):
         alpha = _alphabet(m)
-        for n in range(1, maxlen + 1):
+        # (the workbook path costs ~10 ms per history: one step shorter)
+        for n in range(1, maxlen + (0 if 'names' not in m else -1) + 1):
             for hist in itertools.product(range(len(alpha)), repeat=n):
                 # a history without eval observes nothing
                 if not any(alpha[h][0] == 'eval' for h in hist):
@@ -204,8 +248,10 @@ def judge(case):
         key = None
     hist = case['history']
     inputs = dict(model['inputs'])
+    names = model.get('names', {})
     try:
-        m = lib.compile_dict(GM.to_dict(model))
+        m = compile_named(model) if names else lib.compile_dict(
+            GM.to_dict(model))
         ev = xl.Evaluator(m)
     except Exception as err:  # noqa: BLE001
         t = exc_tag(err)
@@ -221,28 +267,32 @@ def judge(case):
         if kind == 'newev':
             ev = xl.Evaluator(m)
             continue
+        via = ':by-name' if kind != 'newev' and op[1] in names else ''
         if kind == 'set':
-            _, a, v = op
+            _, target, v = op
+            a = names.get(target, target)
             try:
-                ev.set_cell_value(a, v)
+                ev.set_cell_value(target, v)
             except Exception as err:  # noqa: BLE001
                 res.fail('set-exception', 'ok', exc_tag(err), op)
                 return res
             inputs[a] = v
             last_known[a] = vtag(v)
             try:
-                g = norm(ev.get_cell_value(a))
+                g = norm(ev.get_cell_value(target))
+                g2 = norm(ev.get_cell_value(a))
             except Exception as err:  # noqa: BLE001
-                g = exc_tag(err)
-            if g != vtag(v):
-                res.fail('get-after-set', vtag(v), g, [step, op])
+                g = g2 = exc_tag(err)
+            if g != vtag(v) or g2 != vtag(v):
+                res.fail('get-after-set' + via, vtag(v), [g, g2], [step, op])
                 return res
             continue
         if kind == 'get':
-            a = op[1]
+            target = op[1]
+            a = names.get(target, target)
             if a in last_known:
                 try:
-                    g = norm(ev.get_cell_value(a))
+                    g = norm(ev.get_cell_value(target))
                 except Exception as err:  # noqa: BLE001
                     g = exc_tag(err)
                 if not close(g, last_known[a], rel=1e-12) and not any(
@@ -252,9 +302,10 @@ def judge(case):
                     return res
             continue
         # eval
-        a = op[1]
+        target = op[1]
+        a = names.get(target, target)
         try:
-            obs = norm(ev.evaluate(a))
+            obs = norm(ev.evaluate(target))
         except Exception as err:  # noqa: BLE001
             obs = root_exc(err)
         if a in model['formulas']:
@@ -273,9 +324,9 @@ def judge(case):
                 return res
             if not close(obs, fresh, rel=1e-12):
                 depth = GM.depth(model, a, dp)
-                b = 'stale:%s:depth%d' % (
+                b = 'stale:%s:depth%d%s' % (
                     'after-input-change' if changed else 'first-evaluation',
-                    min(depth, 3))
+                    min(depth, 3), via)
                 if obs[0] == 'X':
                     b = 'eval-exception:%s:%s' % (obs[1], obs[2])
                 res.fail(b, fresh, obs, [step, op])
